@@ -198,6 +198,14 @@ impl S {
                     t.signature = self.p.mk_timeout(donor, round, hq.clone()).signature;
                     self.act("invalid variant (fresh): timeout with a signature made for another round");
                     self.p.send(donor, &ConsensusMessage::Timeout(t)).await;
+                    // correctly self-signed timeouts whose embedded high-QC is forged, for every QC round
+                    // between the certificate the node holds and the round it is in
+                    for fr in (hq.round + 1)..round {
+                        let forged = QC { hash: rand_digest(&mut self.rng), round: fr, votes: hq.votes.clone() };
+                        let t = self.p.mk_timeout(donor, round - 1, forged);
+                        self.act(format!("invalid variant (fresh): timeout carrying a forged QC of round {}", fr));
+                        self.p.send(donor, &ConsensusMessage::Timeout(t)).await;
+                    }
                     self.p.settle().await;
                 }
                 for i in signers {
@@ -420,8 +428,16 @@ async fn random_script(s: &mut S, steps: usize) {
                             // proposal by a puppet that is not the leader
                             let cands: Vec<usize> = s.p.puppets().into_iter().filter(|x| *x != leader).collect();
                             let other = cands.choose(&mut s.rng).unwrap();
-                            s.act(format!("proposal r{} by non-leader {}", round, other));
-                            s.p.mk_block(*other, round, hi, None, vec![])
+                            // sometimes with a batch the node does not hold yet (it arrives later):
+                            // the parked block must not come back as votable
+                            let mut pl = vec![];
+                            if s.rng.gen_bool(0.5) {
+                                let d = rand_digest(&mut s.rng);
+                                s.pending_batches.push(d.clone());
+                                pl.push(d);
+                            }
+                            s.act(format!("proposal r{} by non-leader {} (payload {})", round, other, pl.len()));
+                            s.p.mk_block(*other, round, hi, None, pl)
                         }
                     };
                     s.deliver(&b).await;
@@ -744,6 +760,83 @@ async fn directed(s: &mut S, class: &str) {
                 s.advance(vec![], true).await;
             }
         }
+        // D20: the child arrives before its parent AND references a batch the node lacks; the parent then
+        // arrives (sync-resumed path); the batch only later. No vote before the batch is stored.
+        "d20" => {
+            for _ in 0..3 {
+                s.advance(vec![], true).await;
+            }
+            let mut guard = 0;
+            while (s.p.leader(s.cur) == s.p.r || s.p.leader(s.cur + 1) == s.p.r) && guard < 8 {
+                s.advance(vec![], true).await;
+                guard += 1;
+            }
+            s.answer_sync_prob = 0.0;
+            let parent = s.advance(vec![], false).await;
+            let d = rand_digest(&mut s.rng);
+            s.act("child with a missing batch, parent unknown");
+            s.advance(vec![d.clone()], true).await;
+            s.settle().await;
+            if let Some(pb) = parent {
+                s.act("parent arrives");
+                s.deliver(&pb).await;
+                s.withheld.clear();
+            }
+            s.settle().await;
+            s.p.wait_ms(40).await;
+            s.act("batch arrives");
+            s.p.store_batch(&d).await;
+            s.answer_sync_prob = 1.0;
+            s.settle().await;
+            for _ in 0..4 {
+                s.advance(vec![], true).await;
+            }
+        }
+        // D13: proposals by members that are not the round's leader: with an empty payload, with a stored
+        // batch, and with a batch that only arrives later (payload-resumed path); then the real leader's.
+        "d13" => {
+            for _ in 0..3 {
+                s.advance(vec![], true).await;
+            }
+            for variant in 0..3 {
+                let mut guard = 0;
+                while s.p.leader(s.cur) == s.p.r && guard < 4 {
+                    s.advance(vec![], true).await;
+                    guard += 1;
+                }
+                // make sure R is in round `cur` (it has seen the QC for cur-1): send it inside a timeout
+                let round = s.cur;
+                let leader = s.p.leader(round);
+                if s.tip.round + 1 == round {
+                    let t = s.p.mk_timeout(leader, round, s.tip_qc.clone());
+                    s.send(leader, ConsensusMessage::Timeout(t)).await;
+                    s.settle().await;
+                }
+                let cands: Vec<usize> = s.p.puppets().into_iter().filter(|x| *x != leader).collect();
+                let other = *cands.choose(&mut s.rng).unwrap();
+                let d = rand_digest(&mut s.rng);
+                let payload = match variant {
+                    0 => vec![],
+                    1 => {
+                        s.p.store_batch(&d).await;
+                        vec![d.clone()]
+                    }
+                    _ => vec![d.clone()],
+                };
+                let tc = if s.tip.round + 1 != round { Some(s.tc_for(round - 1, s.tip_qc.round)) } else { None };
+                let b = s.p.mk_block(other, round, s.tip_qc.clone(), tc, payload);
+                s.act(format!("proposal r{} by non-leader {} (variant {})", round, other, variant));
+                s.deliver(&b).await;
+                s.settle().await;
+                if variant == 2 {
+                    s.act("batch of the non-leader block arrives");
+                    s.p.store_batch(&d).await;
+                    s.settle().await;
+                }
+                s.advance(vec![], true).await;
+                s.advance(vec![], true).await;
+            }
+        }
         // D19: round entered through a separately delivered TC; the proposal of that round is parked for
         // a missing batch, resumed, voted; then R's timer fires (its timeout must carry the block's QC).
         "d19" => {
@@ -864,6 +957,15 @@ async fn directed(s: &mut S, class: &str) {
             s.deliver(&b).await;
             s.settle().await;
             s.all.push(b.clone());
+            if s.rng.gen_bool(0.5) {
+                // the leader equivocates towards the collector: R (next leader) must not vote twice
+                let d = rand_digest(&mut s.rng);
+                s.p.store_batch(&d).await;
+                let b2 = s.p.mk_block(leader, round, b.qc.clone(), b.tc.clone(), vec![d]);
+                s.act(format!("equivocating proposal for r{} at the collector", round));
+                s.deliver(&b2).await;
+                s.settle().await;
+            }
             // messages: votes for b and timeouts for `round`, shuffled, with duplicates and one conflict
             let mut msgs: Vec<(usize, ConsensusMessage)> = Vec::new();
             let voters = s.p.random_quorum(&mut s.rng);
